@@ -595,6 +595,61 @@ def rule_zero(env, shared):
                           "%s takes a chunk size but no `chunk_size > 0` assertion dominates its work: a zero chunk size "
                           "is documented to panic; without the assertion it loops forever or yields empty chunks"
                           % env.fname(b)))
+    # (c) no buffered puller with chunk size 0 is ever handed out: in every world, each return of `buffered_iter(chunk_size)`
+    #     lies behind a passed `x > 0` assertion on the chunk size — in the function itself, or in a function it always
+    #     calls (the driver's or the chunk's constructor, a checking helper), at any depth. A zero-size buffered pull
+    #     reserves with fetch_add(0): its ticket is shared with the next caller (two threads inside the wrapped
+    #     iterator), and for known-size sources it yields empty chunks forever.
+    def passed_assertions(ctx, depth=0):
+        """subjects (terms of the entry function) of the positivity assertions that every normal return of ctx.body has
+        passed"""
+        b = ctx.body
+        rets = [x for x in b.exits() if not b.blocks[x]["cleanup"] and b.term(x)["k"] == "return"]
+        if not rets or depth > 5:
+            return []
+        dom = b.dominators()
+        res = []
+        for bi, blk in enumerate(b.blocks):
+            if blk["cleanup"] or not all(bi in dom.get(r, set()) | {r} for r in rets):
+                continue
+            t = blk["term"]
+            if t["k"] == "switch" and t.get("discr_ty") == "bool":
+                T = unref(env.ev.operand(ctx, t["discr"]))
+                if T[0] == "bin" and T[1] in ("Gt", "Ne", "Ge") and unref(T[3]) in (("int", 0), ("int", 1)) \
+                        and not (T[1] == "Ge" and unref(T[3]) == ("int", 0)):
+                    subject = unref(T[2])
+                elif T[0] == "bin" and T[1] == "Lt" and unref(T[2]) == ("int", 0):
+                    subject = unref(T[3])
+                else:
+                    continue
+                pan = [x for x in b.succ(bi) if _reaches_only_panic(b, x)]
+                if len(pan) == 1 and len(b.succ(bi)) == 2:
+                    res.append(subject)
+            elif t["k"] == "call":
+                nctx = env.ev.callee_ctx(ctx, bi)
+                if nctx is not None and not nctx.body.is_closure:
+                    res.extend(passed_assertions(nctx, depth + 1))
+        return res
+
+    for w in env.worlds():
+        bb_ = R.method_body(R.T_CON, "buffered_iter", w["iter"])
+        if bb_ is None:
+            continue
+        key = "ZERO.c|%s" % w["name"]
+        ctx = env.ctx(bb_, w["iter"], w)
+        cs = ("param", 2)
+        subj = passed_assertions(ctx)
+        okc = [x for x in subj if x == cs or cs in subterms(x) or
+               (x[0] == "call" and x[1] in ("len", "chunk_size", "Vec::len") or "chunk_size" in str(x[1]))]
+        if okc:
+            out.append(Ob("ZERO.c", key, "ok", bb_.file_line(), "every buffered puller handed out has passed `chunk size > 0` "
+                          "(asserted on %s)" % fmt(okc[0])[:80], True))
+        else:
+            out.append(Ob("ZERO.c", key, "viol", bb_.file_line(),
+                          "buffered_iter of %s can return a buffered puller whose chunk size was never asserted positive: a "
+                          "zero-size buffered pull reserves nothing (for the iterator-backed source its ticket is shared with "
+                          "the next caller, so two threads run the wrapped iterator at once; for known-size sources it yields "
+                          "empty chunks without end); chunk size 0 is documented to panic" % w["name"]))
     # (b) one-shot chunk pulls with n == 0: any atomic store / flag store / wait must be guarded by n != 0
     for u in m.units:
         if u.kind != "chunk":
@@ -652,3 +707,15 @@ def _reaches_only_panic(b, s):
             return False
         st.extend(b.succ(x))
     return True
+
+
+def rule_zero_ticket(env, shared):
+    """ZERO.c for the worlds whose counter owner admits by ticket: a zero-size buffered pull reserves with fetch_add(0), so
+    its ticket is the next caller's ticket too — both are admitted and run the wrapped iterator at the same time."""
+    m = _m1(env)
+    names = {w["name"] for w in env.worlds() if env.R.impl[m.base_impl(w)]["kind"] == "ticket"}
+    res = shared.get("zero_obs")
+    if res is None:
+        res = rule_zero(env, shared)
+    return [o for o in res if o.rule == "ZERO.c" and o.key.split("|", 1)[1] in names]
+
